@@ -1,6 +1,6 @@
 //! C16 harness: constraints are enforced on exactly the intended steps.
 //!   c16 corr <seed> <nmax> <group>   -> lines "<case> => <impl result>"; groups:
-//!        ctor len ovl ft fa bc prep ex lag
+//!        ctor len ovl ft fa bc prep ex lag glue
 //!   c16 corr <seed> <nmax> lag <L> <LF>  Lagrange kernel constraints: trace lengths 2^1..2^L on three fields (+ 2^14, 2^16 on f64),
 //!                                        zero pattern of every divisor over the whole trace domain; for n <= 2^LF the model
 //!                                        side evaluates its divisor at every domain point, above it uses the proved row sets
@@ -385,6 +385,112 @@ fn corr_ex(nmax: usize, out: &mut Vec<String>) {
     }
 }
 
+
+
+// ---------------------------------------------------------------- glue: BoundaryConstraints::new on a two-segment trace
+// The real BoundaryConstraints::new(context, main_assertions, aux_assertions, coefficients) with main width != aux width:
+// each list must be validated against ITS OWN segment's width.  Case line:
+//   glue <fld> <n> <mw> <aw> <g> <tag> <main specs ;> <aux specs ;>  =>  ok <#main constraints> <#aux constraints> | width | length | overlap | panic
+fn glue_run<B: Fld>(n: usize, mw: usize, aw: usize, main: &[Spec], aux: &[Spec]) -> String {
+    catch(AssertUnwindSafe(|| {
+        let opts = ProofOptions::new(1, 2, 0, FieldExtension::None, 2, 1);
+        let ctx = AirContext::<B>::new_multi_segment(TraceInfo::new_multi_segment(mw, aw, 1, n, vec![]),
+            vec![TransitionConstraintDegree::new(1)], vec![TransitionConstraintDegree::new(1)], main.len(), aux.len(), None, opts);
+        let ma: Vec<Assertion<B>> = main.iter().enumerate().map(|(k, s)| s.build(&|i| B::from_u128((1000 * (k + 1) + i) as u128))).collect();
+        let aa: Vec<Assertion<B>> = aux.iter().enumerate().map(|(k, s)| s.build(&|i| B::from_u128((5000 * (k + 1) + i) as u128))).collect();
+        let cc: Vec<B> = (0..main.len() + aux.len()).map(|i| B::from_u128(i as u128 + 1)).collect();
+        let bcs = BoundaryConstraints::<B>::new(&ctx, ma, aa, &cc);
+        format!("ok {:x} {:x}", bcs.main_constraints().iter().map(|g| g.constraints().len()).sum::<usize>(), bcs.aux_constraints().iter().map(|g| g.constraints().len()).sum::<usize>())
+    })).unwrap_or_else(|m| panic_kind(&m))
+}
+fn glue_line<B: Fld>(n: usize, mw: usize, aw: usize, tag: &str, main: &[Spec], aux: &[Spec]) -> String {
+    let sh = |l: &[Spec]| l.iter().map(|s| s.show().replace(' ', ",")).collect::<Vec<_>>().join(";");
+    format!("glue {} {:x} {:x} {:x} {} {} {} {} => {}", B::NAME, n, mw, aw, hx(root::<B>(n)), tag, sh(main), sh(aux), glue_run::<B>(n, mw, aw, main, aux))
+}
+/// (name, column) of the column classes of a segment
+fn glue_classes(seg: char, mw: usize, aw: usize) -> Vec<(&'static str, usize)> {
+    if seg == 'm' { vec![("0", 0), ("mw-1", mw - 1), ("mw", mw), ("mw+aw-1", mw + aw - 1), ("mw+aw", mw + aw)] }
+    else { vec![("0", 0), ("aw-1", aw - 1), ("aw", aw), ("mw-1", mw - 1), ("mw", mw), ("mw+aw-1", mw + aw - 1), ("mw+aw", mw + aw)] }
+}
+const GLUE_WIDTHS: [(usize, usize); 2] = [(3, 2), (2, 5)];
+
+fn corr_glue<B: Fld>(r: &mut Rng, out: &mut Vec<String>) {
+    let single = |col: usize, first: usize| Spec { kind: 's', col, first, stride: 0, nvals: 1 };
+    for (mw, aw) in GLUE_WIDTHS {
+        for n in [8usize, 16] {
+            // column classes of both segments, every combination, three kinds of assertion
+            for (mn, mc) in glue_classes('m', mw, aw) { for (an, ac) in glue_classes('a', mw, aw) {
+                for kind in ['s', 'p', 'q'] {
+                    let mk = |col: usize| match kind { 's' => single(col, 1), 'p' => Spec { kind: 'p', col, first: 1, stride: 4, nvals: 1 }, _ => Spec { kind: 'q', col, first: 0, stride: n / 2, nvals: 2 } };
+                    out.push(glue_line::<B>(n, mw, aw, &format!("cols:{}:m={}:a={}", kind, mn, an), &[mk(mc)], &[mk(ac)]));
+                }
+            } }
+            // ill-formed first step / stride / length, in either segment (the other one holds a valid assertion)
+            let bad: Vec<(&str, Spec)> = vec![
+                ("step=n", single(0, n)), ("step>n", single(0, n + 3)), ("stride=2n", Spec { kind: 'p', col: 0, first: 0, stride: 2 * n, nvals: 1 }),
+                ("seq-long", Spec { kind: 'q', col: 0, first: 0, stride: 2, nvals: n }), ("seq-short", Spec { kind: 'q', col: 0, first: 1, stride: 2, nvals: n / 4 }),
+                ("stride=3", Spec { kind: 'p', col: 0, first: 0, stride: 3, nvals: 1 }), ("nvals=3", Spec { kind: 'q', col: 0, first: 0, stride: 4, nvals: 3 }),
+                ("first>=stride", Spec { kind: 'p', col: 0, first: 4, stride: 4, nvals: 1 }), ("fits", Spec { kind: 'q', col: 0, first: 1, stride: 2, nvals: n / 2 }),
+            ];
+            for (name, s) in &bad {
+                out.push(glue_line::<B>(n, mw, aw, &format!("bad:m:{}", name), &[*s], &[single(0, 0)]));
+                out.push(glue_line::<B>(n, mw, aw, &format!("bad:a:{}", name), &[single(0, 0)], &[*s]));
+                // an ill-sized assertion AND an out-of-segment column
+                let mut t = *s; t.col = aw;
+                out.push(glue_line::<B>(n, mw, aw, &format!("bad:a+col:{}", name), &[single(0, 0)], &[t]));
+            }
+            // duplicates and overlaps within a segment; the same cell named in BOTH segments is not an overlap
+            let per = Spec { kind: 'p', col: 1, first: 1, stride: 4, nvals: 1 };
+            let seq = Spec { kind: 'q', col: 1, first: 1, stride: n / 2, nvals: 2 };
+            for (name, l) in [("dup", vec![single(1, 5), single(1, 5)]), ("single-in-periodic", vec![per, single(1, 5)]), ("periodic-seq", vec![seq, per]),
+                              ("disjoint", vec![per, single(1, 2), single(0, 5)]), ("other-column", vec![per, single(0, 5)])] {
+                out.push(glue_line::<B>(n, mw, aw, &format!("ovl:m:{}", name), &l, &[single(0, 0)]));
+                out.push(glue_line::<B>(n, mw, aw, &format!("ovl:a:{}", name), &[single(0, 0)], &l));
+                out.push(glue_line::<B>(n, mw, aw, &format!("ovl:both:{}", name), &l, &l));
+            }
+            // random lists over all columns 0..mw+aw of both segments
+            let all = enum_valid(n, &(0..=mw + aw).collect::<Vec<_>>());
+            for _ in 0..120 {
+                let ml: Vec<Spec> = (0..1 + r.below(3) as usize).map(|_| { let mut s = *r.pick(&all); if r.chance(2, 3) { s.col %= mw; } s }).collect();
+                let al: Vec<Spec> = (0..1 + r.below(3) as usize).map(|_| { let mut s = *r.pick(&all); if r.chance(1, 2) { s.col %= aw; } s }).collect();
+                out.push(glue_line::<B>(n, mw, aw, "rand", &ml, &al));
+            }
+        }
+    }
+}
+
+/// falsifier: accepted iff every assertion's column is inside ITS segment, it fits the trace, and no two assertions of one
+/// segment name a common cell (definitions: Spec::fits / Spec::step_set)
+fn falsify_glue<B: Fld>(r: &mut Rng, t: &mut Tally) {
+    for (mw, aw) in GLUE_WIDTHS {
+        for n in [8usize, 16, 32] {
+            let all = enum_valid(n, &(0..=mw + aw).collect::<Vec<_>>());
+            let mut cases: Vec<(Vec<Spec>, Vec<Spec>)> = vec![];
+            for (_, mc) in glue_classes('m', mw, aw) { for (_, ac) in glue_classes('a', mw, aw) {
+                cases.push((vec![Spec { kind: 's', col: mc, first: 0, stride: 0, nvals: 1 }], vec![Spec { kind: 'p', col: ac, first: 1, stride: 2, nvals: 1 }]));
+            } }
+            for _ in 0..300 {
+                let ml: Vec<Spec> = (0..1 + r.below(3) as usize).map(|_| { let mut s = *r.pick(&all); if r.chance(3, 4) { s.col %= mw; } s }).collect();
+                let mut al: Vec<Spec> = (0..1 + r.below(3) as usize).map(|_| { let mut s = *r.pick(&all); if r.chance(2, 3) { s.col %= aw; } s }).collect();
+                if r.chance(1, 10) { al[0] = Spec { kind: 's', col: 0, first: n, stride: 0, nvals: 1 }; }
+                cases.push((ml, al));
+            }
+            for (ml, al) in cases {
+                t.evals += 1;
+                let seg_ok = |l: &[Spec], w: usize| {
+                    let mut cells = BTreeSet::new();
+                    l.iter().all(|s| s.col < w && s.fits(n) && s.step_set(n).into_iter().all(|st| cells.insert((s.col, st))))
+                };
+                let want = seg_ok(&ml, mw) && seg_ok(&al, aw);
+                let got = glue_run::<B>(n, mw, aw, &ml, &al);
+                if got.starts_with("ok") != want {
+                    t.fail("BoundaryConstraints::new: assertions of a segment are not validated against that segment (width, length, overlap)",
+                        format!("{} n={} main_width={} aux_width={} main={:?} aux={:?}", B::NAME, n, mw, aw, ml, al), if want { "accepted".into() } else { "refused".into() }, got);
+                }
+            }
+        }
+    }
+}
 
 // ---------------------------------------------------------------- Lagrange kernel constraints
 // air/src/air/lagrange/{transition,boundary,frame,mod}.rs.  The real constraints are obtained the way the prover and the
@@ -959,6 +1065,7 @@ fn main() {
                 "bc" => { corr_bc::<f64::BaseElement>(&mut r, nmax, &mut out); corr_bc::<f62::BaseElement>(&mut r, nmax, &mut out); corr_bc::<f128::BaseElement>(&mut r, nmax, &mut out); }
                 "prep" => { corr_prep::<f64::BaseElement>(&mut r, nmax, &mut out); corr_prep_rand::<f62::BaseElement>(&mut r, nmax.min(32), &mut out); corr_prep_rand::<f128::BaseElement>(&mut r, nmax.min(16), &mut out); }
                 "ex" => corr_ex(nmax, &mut out),
+                "glue" => { corr_glue::<f64::BaseElement>(&mut r, &mut out); corr_glue::<f128::BaseElement>(&mut r, &mut out); }
                 "lag" => {
                     let l: u32 = args.get(5).and_then(|s| s.parse().ok()).unwrap_or(12);
                     let lf: u32 = args.get(6).and_then(|s| s.parse().ok()).unwrap_or(8);
@@ -977,6 +1084,8 @@ fn main() {
             falsify_field::<f64::BaseElement>(&mut r, nmax, &mut t);
             falsify_field::<f62::BaseElement>(&mut r, nmax, &mut t);
             falsify_field::<f128::BaseElement>(&mut r, nmax, &mut t);
+            falsify_glue::<f64::BaseElement>(&mut r, &mut t);
+            falsify_glue::<f62::BaseElement>(&mut r, &mut t);
             let l: u32 = args.get(4).and_then(|s| s.parse().ok()).unwrap_or(12);
             falsify_lagrange::<f64::BaseElement>(&mut r, seed, l, &mut t);
             falsify_lagrange::<f62::BaseElement>(&mut r, seed, l, &mut t);
